@@ -134,6 +134,7 @@ def run(ctx):
     # ---------------- literal rule
     literal_rule(ctx, q, S, rp)
     constant_injective(ctx, q, S, rp)
+    version_line(ctx, q, S, rp)
     # ---------------- line format and module walk
     line_format(ctx, S)
     module_walk(ctx, q, S)
@@ -535,6 +536,56 @@ def constant_injective(ctx, q, S, rp):
                               "float" if isf else "integer", wd, a, b, t1.get("text")), {"cmd": "disas_constant %d %s %d %d" % (wd, "float" if isf else "int", sg, a), "real": [t1, t2]})
         else:
             ctx.ob(tag, None, "model-only collision (%d vs %d through %s); the compiled crate prints %r and %r" % (a, b, ka, t1.get("text"), t2.get("text")))
+
+
+def version_line(ctx, q, S, rp):
+    """the `; Version: M.m` line: `create_version_from_word` from MIR for all 2^32 words — major and minor are the two middle bytes
+    of the version word, so different version words (in those bytes) print different lines"""
+    import c03
+    c = [x for x in S.mf.find("create_version_from_word") if "closure" not in x[0]]
+    if len(c) != 1:
+        ctx.ob("header/version-line", None, "create_version_from_word: %d candidates" % len(c))
+        return
+    fn = S.mf.parse_item(c[0][2])
+    w = z3.BitVec("version_word", 32)
+    try:
+        res = S.engine(loop_bound=3).run(fn, [w])
+    except mir.Unsupported as ex:
+        ctx.ob("header/version-line", None, "not encodable: %s" % str(ex)[:200])
+        return
+    bad = None
+    for r in res:
+        if r.status != "return":
+            st_, m = q.check(list(r.pc), "version-panic")
+            if st_ != "unsat":
+                bad = ("ends in %s" % r.status, m if st_ == "sat" else None)
+                break
+            continue
+        v = r.value
+        if not (isinstance(v, sym.Adt) and len(v.fields) == 2 and all(z3.is_expr(f) for f in v.fields)):
+            ctx.ob("header/version-line", None, "returns %r" % (v,))
+            return
+        st_, m = q.check(list(r.pc) + [z3.Or(v.fields[0] != z3.Extract(23, 16, w), v.fields[1] != z3.Extract(15, 8, w))], "version-bytes")
+        if st_ == "sat":
+            bad = ("major / minor are not bytes 2 and 1 of the version word", m)
+            break
+        if st_ != "unsat":
+            ctx.ob("header/version-line", None, str(m))
+            return
+    if bad is None:
+        ctx.ob("header/version-line", True, "all 2^32 version words")
+        return
+    what, m = bad
+    wv = m.eval(w, model_completion=True).as_long() if m is not None else 0x00110200
+    words = "03022307" + c03.le(wv) + c03.le(0) + c03.le(8) + c03.le(0)
+    real = rp.ask("load_disassemble %s" % words)
+    want = "; Version: %d.%d" % ((wv >> 16) & 0xff, (wv >> 8) & 0xff)
+    if "panic" in real or (real.get("loaded") and want not in real.get("text", "")):
+        ctx.ob("header/version-line", False, what)
+        ctx.violation("disassemble/header/version", "a module whose version word is %#010x is disassembled with the version line %r, not %r (%s)" % (
+            wv, [l for l in real.get("text", "").split("\n") if "Version" in l][:1], want, what), {"cmd": "load_disassemble %s" % words, "real": real})
+    else:
+        ctx.ob("header/version-line", None, "model-only deviation (%s); the compiled crate prints %r" % (what, want))
 
 
 def line_format(ctx, S):
